@@ -1,0 +1,24 @@
+//go:build verif
+
+package agentstorage
+
+import "sync/atomic"
+
+// Scheduling points for the verification harness (build tag verif). The points
+// are at places where no lock is held.
+
+var verifYieldFn atomic.Value // func(point string, pi int)
+
+func verifYield(point string, pi int) {
+	if fn, ok := verifYieldFn.Load().(func(point string, pi int)); ok && fn != nil {
+		fn(point, pi)
+	}
+}
+
+// VerifSetYield installs (or, with nil, removes) the function called at every scheduling point.
+func VerifSetYield(fn func(point string, pi int)) {
+	if fn == nil {
+		fn = func(string, int) {}
+	}
+	verifYieldFn.Store(fn)
+}
